@@ -8,7 +8,9 @@
 // order, and all texts must be identical. size.go adds size sweeps and a
 // one-source history family, sources.go feeds one extractor from several
 // sources (line numbers that repeat, sparse matches, ignore sets, several views
-// in one key).
+// in one key), lookalike.go enumerates captures that a sloppy classifier takes
+// for a JSON literal (every Unicode digit, number, sign, separator and space
+// rune, keyword variants, a number grammar).
 package main
 
 import (
@@ -18,6 +20,7 @@ import (
 	"strconv"
 	"strings"
 	"time"
+	"unicode"
 
 	"rare/pkg/extractor"
 	"rare/pkg/matchers"
@@ -426,6 +429,10 @@ func worker(w *runner.W) {
 		inSquare[s] = true
 	}
 	var caseNo int64
+	if w.Param("only", "") == "lookalike" { // development aid: -p only=lookalike times that family alone
+		lookWorker(w, &caseNo)
+		return
+	}
 	for ci := range configs {
 		c := &configs[ci]
 		for _, key := range keys {
@@ -472,6 +479,9 @@ func worker(w *runner.W) {
 	if w.Param("sources", "on") != "off" { // development aid: -p sources=off times the other families alone
 		sourcesWorker(w, &caseNo)
 	}
+	if w.Param("lookalike", "on") != "off" {
+		lookWorker(w, &caseNo)
+	}
 }
 
 func replay(w *runner.W, raw json.RawMessage) {
@@ -482,6 +492,10 @@ func replay(w *runner.W, raw json.RawMessage) {
 	}
 	var sc sCase
 	if err := json.Unmarshal(raw, &sc); err == nil && sc.Family != "" {
+		if sc.Family == "lookalike" {
+			replayLook(w, sc)
+			return
+		}
 		replaySize(w, sc)
 		return
 	}
@@ -511,15 +525,16 @@ func main() {
 				cn = append(cn, fmt.Sprintf("%s %q", c.Name, c.Pattern))
 			}
 			return fmt.Sprintf("matches of the line v1|v2 by %d matcher configurations (%s) x keys {.} {#} {.#} evaluated by the real extractor (one worker) x every pair (v1, v2) over V%d in which at least one value is in V%d or both are in V%d, where Vn = all strings of up to n symbols over %q plus the special values %q (|V1|=%d, |V2|=%d, |V3|=%d). Every match is evaluated at least 64 times (2 named groups: 64 times with the matcher's name table, 96 times each with name tables holding the same names inserted in ascending and in descending order) and all texts must be identical; the first text is validated and decoded with encoding/json and every member compared with the captured text. One evaluation = one (configuration, key, v1, v2) or one line of a size/history unit; non-trivial = the text has at least one member.",
-				len(configs), strings.Join(cn, ", "), b.big, b.small, b.square, alphabet, specials, len(values(1)), len(values(2)), len(values(3))) + sizeRule(tier != "thorough") + sourcesRule(tier != "thorough")
+				len(configs), strings.Join(cn, ", "), b.big, b.small, b.square, alphabet, specials, len(values(1)), len(values(2)), len(values(3))) + sizeRule(tier != "thorough") + sourcesRule(tier != "thorough") + lookRule(tier != "thorough")
 		},
 		Assumptions: func(string) []string {
 			return []string{
 				"encoding/json is the judge of validity (it accepts raw bytes >= 0x80 inside strings, including invalid UTF-8, which it decodes to U+FFFD); a U+FFFD per invalid byte or per run of invalid bytes is accepted as the decoding of invalid UTF-8",
-				"a member may be a JSON number only if the capture has the shape [+-]digits[.digits][e[+-]digits] and exactly the same decimal value (digit strings and math/big exponents, no rounding at any size); a boolean only if the capture is true/false in any ASCII letter case",
+				"a member may be a JSON number only if the capture has the shape [+-]digits[.digits][e[+-]digits] and exactly the same decimal value (digit strings and math/big exponents, no rounding at any size); a boolean only if the capture is true/false in any letter case (ASCII case, or equal under Unicode simple case folding: U+017F LONG S for s - the statement does not say in which case a true/false capture is written); a capture written with decimal digits of another script (category Nd) counts as numeric-looking with the value its digits have, so a JSON number of that value is accepted for it (rare writes such captures as strings)",
 				"a member name must decode to the group name; a group name that is not valid UTF-8 (dissect names may hold any byte but '}') may decode with U+FFFD like a value",
 				"size and history families: the captures of a line are known by construction (the patterns split on a delimiter that the values do not contain); a fresh extractor (extractor.New with one worker) is a fresh compiled key, a fresh matcher instance and a fresh expression context",
 				"sources family: an InputBatch may carry any source name and any BatchStart, so two sources with one name (a file named twice, a file re-opened after it was replaced) and therefore the same source name and line number with another text are part of the input space; whether a line is ignored is not C16's business, only that the long-lived extractor and a fresh one agree on it; a match that comes back under a (source, number, text) that was never sent is not judged",
+				"lookalike family: the classes are what package unicode of the Go toolchain that builds the harness lists (Unicode " + unicode.Version + "); every run of consecutive Nd runes is a whole number of blocks 0..9 (checked at start); characters whose resemblance to a digit, sign or letter is known only to tables outside the standard library (NFKC mappings of mathematical alphanumerics, CJK numerals of category Lo, confusables) are enumerated only by the thorough tier's every-code-point class, as single runes",
 				"an empty capture may be left out of the object or be an empty string; every non-empty capture the key asks for must be a member ({.}: named groups, {#}: numbered groups incl. 0, {.#}: both) and no other member may appear",
 				"Go's map iteration order cannot be chosen from outside; a difference between evaluations is looked for with 64..256 evaluations per match and tables of different insertion history. With 2 names in one bucket each single iteration starts at the second entry with probability 1/8, so an order-dependent implementation escapes one case with probability < 1e-14 and a whole run (thousands of such cases) never in practice; an implementation that does not depend on map order can never be reported",
 			}
